@@ -186,7 +186,7 @@ func sizePhases(p *seqProp, tier string, widthDepth int, allOpts bool) []*seqPro
 	if tier == "thorough" {
 		sizes = sweepSizes(70, 100, 128, 200, 256, 500, 512, 1000, 1024)
 	}
-	return []*seqProp{stringSizePhase(p, tier), widthSizePhase(p, sizes, widthDepth, allOpts), productPhase(p, tier), scriptPhase(p, tier)}
+	return []*seqProp{stringSizePhase(p, tier), widthSizePhase(p, sizes, widthDepth, allOpts), productPhase(p, tier), scriptPhase(p, tier), prefixNamesPhase(p)}
 }
 
 // under runs a size alphabet on a sized document that sits at pointer prefix inside a larger one: every
@@ -487,5 +487,24 @@ func stringTokenPhase(p *seqProp, maxTok int) *seqProp {
 		return out
 	}
 	d.Rule = fmt.Sprintf("STRING SHAPES: every string of <= %d tokens over {a, blank, <, escaped backslash, escaped quote, \\n, \\u00e9, raw two-byte character} as member value, member name and nested value, EscapeHTML on and off, under the empty patch and three small patches that leave the strings alone; same oracle", maxTok)
+	return &d
+}
+
+// prefixNamesPhase: member names and indices whose POINTER TEXT is a prefix of another's without being its
+// ancestor (a / ab / a1, k1 / k12, the empty name, element 1 and element 10 of a 12-element array): code that
+// compares pointers as strings instead of token by token confuses them. Depth 2 over the ordinary alphabet
+// with null as the only value.
+func prefixNamesPhase(p *seqProp) *seqProp {
+	d := *p
+	d.Docs = []string{
+		`{"a":{"x":1},"ab":{"y":2},"a1":[1],"k1":{"k":1},"k12":{"k1":2},"":{"":0}}`,
+		`{"arr":[0,"s",2,3,4,5,6,7,8,9,{"t":10},11],"ar":{"r":1},"spec":{"tpl":"str","tpls":{"y":1},"t":[1]}}`,
+	}
+	d.Depth = 2
+	d.Opts = p.Opts[:1]
+	nra := len(p.Alpha) > 0 && p.Alpha[0].NoRootAdd
+	a := &AlphaCfg{Values: v1n, ReplValues: v1n, MaxFroms: 12, NoRootAdd: nra, NoRootPtr: true}
+	d.Alpha = []*AlphaCfg{a, {Values: v1n, ReplValues: v1n, Kinds: kinds("remove", "add", "test", "move"), MaxFroms: 3, NoRootAdd: nra, NoRootPtr: true}}
+	d.Rule = "PREFIX NAMES: two documents whose member names / indices are string prefixes of one another without being ancestors (a, ab, a1; k1, k12; the empty name; elements 1 and 10; tpl, tpls); all sequences <= 2 over Sigma(D) with null as the only value; same oracle"
 	return &d
 }
